@@ -18,6 +18,7 @@ INVARIANT DropAtMostOnce
 INVARIANT UpgradeIffLive
 INVARIANT EphValueIffKeyLive
 INVARIANT NoMarkedCleared
+INVARIANT RefInv
 INVARIANT EphValueOnlyWhileKeyLive
 PROPERTY RefStep
 CHECK_DEADLOCK FALSE
